@@ -293,7 +293,10 @@ def run_check(pid: str, tier: str, seed: int) -> int:
 
     # 3. vacuity floors
     floor_fail = []
+    # floors guard against a degenerate generator, not against a slow machine: they are applied at 40 % of the value a module
+    # declares as typical, and not at all when a shard ran out of its time budget
     for cls, minimum in getattr(mod, "FLOORS", {}).get(tier, {}).items():
+        minimum = int(minimum * 0.4)
         if classes.get(cls, 0) < minimum and not inconclusive:
             floor_fail.append(f"{cls}: {classes.get(cls, 0)} < {minimum}")
 
